@@ -1021,8 +1021,9 @@ Definition step_leader (r : raft) (m : msg) : Res (raft * N) :=
   else if t =? MsgReadIndex then
     c <- commit_to_current_term r ;;
     if negb c then Ok (r, E_OK) else
+    (* the lone voter answers at once only if it is this node (fix 6a9ae91) *)
     let singleton := match incoming (conf_of r), outgoing (conf_of r) with
-                     | [_], [] => true | _, _ => false end in
+                     | [_], [] => r_promotable r | _, _ => false end in
     let answer_now :=
       x <- handle_ready_read_index r m (committed (r_log r)) ;;
       let '(r1, om) := x in
